@@ -46,3 +46,17 @@ func lemmaRoundTripOnKilled(m *OnKilled) (out *OnKilled, werr, rerr error, pos, 
 	rerr = onKilledReader(out, r, nil)
 	return out, werr, rerr, r.Pos(), len(data)
 }
+
+// supervision decisions (C08): the predicates the core switches on, and what they mean
+//@ pure dRestart(d SupervisionDecision) bool = d == SupervisionDecisionRestart || d == SupervisionDecisionGracefulRestart
+//@ pure dStop(d SupervisionDecision) bool = d == SupervisionDecisionStop || d == SupervisionDecisionGracefulStop
+//@ pure dResume(d SupervisionDecision) bool = d == SupervisionDecisionResume
+//@ pure dGraceful(d SupervisionDecision) bool = d == SupervisionDecisionGracefulRestart || d == SupervisionDecisionGracefulStop
+//@ func (SupervisionDecision).IsRestart
+//@   ensures result == dRestart(decision)
+//@ func (SupervisionDecision).IsStop
+//@   ensures result == dStop(decision)
+//@ func (SupervisionDecision).IsResume
+//@   ensures result == dResume(decision)
+//@ func (SupervisionDecision).IsGraceful
+//@   ensures result == dGraceful(decision)
